@@ -46,20 +46,14 @@ func (b *ProcessLogBuffer) GetLogRange(offsetFromEnd, limit int) []string {
 	if offsetFromEnd > len(b.buffer) {
 		offsetFromEnd = len(b.buffer)
 	}
-
-	if limit < 1 {
-		limit = 0
+	// the window starts offsetFromEnd lines before the end and holds limit lines
+	// (limit < 1: everything up to the end), clamped to what exists
+	start := len(b.buffer) - offsetFromEnd
+	end := len(b.buffer)
+	if limit >= 1 && limit < end-start {
+		end = start + limit
 	}
-	if limit > len(b.buffer) {
-		limit = len(b.buffer)
-	}
-	if offsetFromEnd+limit > len(b.buffer) {
-		limit = len(b.buffer) - offsetFromEnd
-	}
-	if limit == 0 {
-		return b.buffer[len(b.buffer)-offsetFromEnd:]
-	}
-	return b.buffer[len(b.buffer)-offsetFromEnd : offsetFromEnd+limit]
+	return b.buffer[start:end]
 }
 
 func (b *ProcessLogBuffer) GetLogLength() int {
